@@ -388,6 +388,8 @@ def run(facts, rep, tier):
         if n.k == 'binop' and n.op == '=' and res_field(n.n('lhs')) in required:
             v = guards.strip_casts(n.n('rhs'))
             if v is not None and v.k == 'str': continue
+            if v is not None and v.k == 'ref' and v.dk == 'binding' and v.binding and v.binding in v.tu.ex:
+                v = guards.strip_casts(Node(v.tu, v.binding))          # a structured binding over a table entry names one of its members
             ok = v is not None and v.k == 'member' and v.name in ('code', 'value') and v.n('base') is not None and v.n('base').k == 'ref' and loopvars.get(v.n('base').decl)
             fl = res_field(n.n('lhs'))
             want_tbl = 'languageInfo' if fl == 'languageCode' else 'countryInfo'
@@ -412,6 +414,7 @@ def run(facts, rep, tier):
     for a in appends:
         x = guards.strip_casts(a.ns('args')[0]) if a.ns('args') and a.ns('args')[0] is not None else None
         if x is not None and x.k == 'str': continue
+        if x is not None and x.k == 'ref' and x.dk == 'binding' and x.binding and x.binding in x.tu.ex: x = guards.strip_casts(Node(x.tu, x.binding))
         ok = x is not None and x.k == 'member' and x.name == 'value' and x.n('base') is not None and x.n('base').k == 'ref' and (loopvars.get(x.n('base').decl) or '').endswith('languageInfo')
         if not ok and x is not None and x.k == 'member' and x.name == 'value':
             rep.inconclusive('LO.3', 'languages entries are names of languageInfo entries', a.shortloc(), f'`{x.text()[:30]}` is not a member of a range-for variable over the table: its origin is not followed'); continue
